@@ -289,6 +289,41 @@ static void sc_open(char **av, int ac)
 
 static void sc_reopen(char **av, int ac) { reopen_after_failure = 1; sc_open(av, ac); }
 
+/* a second dump opened in a context that has one open already (first A, then B under
+ * failure): the first format's resources must be released whatever happens; after a failed
+ * open of B the context must still open B (and read what a fresh context reads) */
+static void sc_reopen2(char **av, int ac)
+{
+	const char *patha = av[0], *pathb = av[1];
+	int fda, fdb;
+	kdump_ctx_t *ctx = open_ctx(patha, &fda), *cl = NULL;
+	kdump_status st;
+	unsigned char buf[64]; size_t l = sizeof buf;
+	fdb = open(pathb, O_RDONLY);
+	if (fdb < 0) { perror(pathb); _exit(4); }
+	LIB(kdump_read(ctx, KDUMP_MACHPHYSADDR, 0x1000, buf, &l));
+	if (ac > 2 && atoi(av[2])) LIB(cl = kdump_clone(ctx, atoi(av[2]) - 1));
+	name_ctx_locks(ctx);
+	win_open();
+	st = CALL("kdump_open_fd", kdump_open_fd(ctx, fdb));
+	note_held();
+	win_close();
+	if (!held_at_return) {
+		if (st != KDUMP_OK) {
+			LIB(st = kdump_open_fd(ctx, fdb));
+			if (st != KDUMP_OK) surv_fail("second dump cannot be opened after the failed attempt: %s", kdump_get_err(ctx));
+		}
+		if (st == KDUMP_OK) {
+			compare_read(ctx, pathb, KDUMP_MACHPHYSADDR, 0x1000, 64, 0, "after re-open");
+			if (cl) compare_read(cl, pathb, KDUMP_MACHPHYSADDR, 0x1000, 64, 0, "clone after re-open");
+		}
+		if (cl) LIB(kdump_free(cl));
+		LIB(kdump_free(ctx));
+	} else
+		surv_fail("skipped: lock still held");
+	close(fda); close(fdb);
+}
+
 static void sc_read(char **av, int ac)
 {
 	const char *path = av[0];
@@ -881,7 +916,7 @@ static void sc_wb_sys_os(char **av, int ac)
 }
 
 static const struct { const char *name; void (*fn)(char **, int); int minargs; } scenarios[] = {
-	{ "new", sc_new, 0 }, { "clone", sc_clone, 2 }, { "open", sc_open, 1 }, { "reopen", sc_reopen, 1 },
+	{ "new", sc_new, 0 }, { "clone", sc_clone, 2 }, { "open", sc_open, 1 }, { "reopen", sc_reopen, 1 }, { "reopen2", sc_reopen2, 2 },
 	{ "read", sc_read, 4 }, { "readstr", sc_readstr, 3 }, { "attrs", sc_attrs, 1 },
 	{ "pagemap", sc_pagemap, 1 }, { "vmcoreinfo", sc_vmcoreinfo, 1 }, { "free", sc_free, 1 }, { "getxlat", sc_getxlat, 1 },
 	{ "wb_xlat", sc_wb_xlat, 1 }, { "wb_fcache_new", sc_wb_fcache_new, 3 },
